@@ -4,6 +4,7 @@ ID=$1; CAUGHT=$2; INIT=$3; shift 3; NEEDS="$*"
 S=/tmp/seed/$ID/.seed; D=/verif/seeded/$ID
 mkdir -p $D
 cp /tmp/seed/$ID.patch $D/patch.diff
+cp /tmp/seed/$ID.seedcheck.txt $D/confirmation.txt
 for f in $S/*; do case $(basename $f) in patch.diff|*.log) ;; *) cp $f $D/ ;; esac; done
 python3 - "$ID" "$CAUGHT" "$INIT" "$NEEDS" <<'PY'
 import json,sys,subprocess
@@ -13,7 +14,7 @@ def grab(tag):
     import re
     m=re.search(tag+r'.*?\nrc=(\d+)',sc,re.S)
     return m.group(1) if m else None
-meta={"property":i,"origin":"independent sub-agent that saw only the property text and a scratch worktree",
+meta={"property":i[:3],"origin":"independent sub-agent that saw only the property text and a scratch worktree",
  "needs_to_manifest":needs,
  "confirmed_by_me":{"applies_and_builds":"build-ok" in sc,"demo_rc_with_change":grab("demo WITH change"),"demo_rc_without_change":grab("demo WITHOUT change"),
    "pinned_suite_with_change":[l.strip() for l in sc.splitlines() if l.startswith("stable_pass")][:1]},
